@@ -476,7 +476,16 @@ func SaveAutofixChanges(lines *Lines) (autofixed bool) {
 		for _, changedLine := range changedLines {
 			text.WriteString(changedLine)
 		}
-		err := tmpName.WriteString(text.String())
+		// Do not overwrite an existing file that happens to have this name.
+		tmpFile, err := os.OpenFile(tmpName.String(), os.O_WRONLY|os.O_CREATE|os.O_EXCL, 0666)
+		if err != nil {
+			G.Logger.TechErrorf(tmpName, "Cannot write: %s", err)
+			continue
+		}
+		_, err = tmpFile.WriteString(text.String())
+		if closeErr := tmpFile.Close(); err == nil {
+			err = closeErr
+		}
 		if err != nil {
 			G.Logger.TechErrorf(tmpName, "Cannot write: %s", err)
 			continue
